@@ -200,6 +200,13 @@ class History:
                     return
                 self.call(op, est.fit, D["X"])
                 self.fitted_d = D["X"].shape[1]
+                # the documented fall-back (linear kernel) is the same for an object with a history and for a fresh clone
+                c = self.fresh_clone()
+                self.call(op, c.fit, D["X"])
+                dd = diff_states(fitted_state(est), fitted_state(c))
+                if dd:
+                    raise Violation(f"{self.label}: fit without the kernel matrix on the object with a call history differs from the "
+                                    f"same call on a fresh clone in {dd} (after {self.ops - 1} earlier calls)")
                 op = "fit"
             elif op == "path":
                 if self.spec["cls"] not in E.SPARSE or not self.compatible(step["ds"]):
